@@ -1259,9 +1259,12 @@ class Wire:
             return ["-- (a statement that touches no tensor)"] + cont()
         fail(st, f"assignment target {ast.unparse(tg)}")
 
+    PURE_COPIES = ("list", "tuple", "copy.copy", "copy.deepcopy")
+
     def mentions_net_call(self, e) -> bool:
+        """any call other than a pure copy of a container (`list(x)`, `copy.copy(x)` …), which touches no tensor"""
         for n in ast.walk(e):
-            if isinstance(n, ast.Call):
+            if isinstance(n, ast.Call) and not (dotted(n.func) in self.PURE_COPIES and len(n.args) == 1 and not n.keywords):
                 return True
         return False
 
